@@ -218,7 +218,7 @@ fn main() {
                 let exe = std::env::current_exe().unwrap();
                 let mut from = 0usize;
                 let mut hangs = 0usize;
-                let stall = std::time::Duration::from_secs(std::env::var("VH_SIM_STALL").ok().and_then(|s| s.parse().ok()).unwrap_or(8));
+                let stall = std::time::Duration::from_secs(std::env::var("VH_SIM_STALL").ok().and_then(|s| s.parse().ok()).unwrap_or(20));
                 loop {
                     let _ = std::fs::remove_file(&progress);
                     let mut cmd = std::process::Command::new(&exe);
